@@ -61,6 +61,7 @@ theorem relayLogK_true (keys : List (Nat × Nat)) (evs : List Ev) :
     | setCfg c => simpa [relayLogK, relayablesK, ckAfter] using ih _
     | crit d => simpa [relayLogK, relayablesK, ckAfter] using ih _
     | failNext c => simpa [relayLogK, relayablesK, ckAfter] using ih _
+    | failAfter c kfa => simpa [relayLogK, relayablesK, ckAfter] using ih _
     | failBind c => simpa [relayLogK, relayablesK, ckAfter] using ih _
     | syncTimeout => simpa [relayLogK, relayablesK, ckAfter] using ih _
     | stamp idx weak ld ccb cct => simpa [relayLogK, relayablesK, ckAfter] using ih _
@@ -126,6 +127,7 @@ theorem mem_relayablesK {keys : List (Nat × Nat)} {evs : List Ev} {d : Bytes} :
     | setCfg c => rw [← shift _ rfl, ← ih]; simp [relayablesK]
     | crit d' => rw [← shift _ rfl, ← ih]; simp [relayablesK]
     | failNext c => rw [← shift _ rfl, ← ih]; simp [relayablesK]
+    | failAfter c kfa => rw [← shift _ rfl, ← ih]; simp [relayablesK]
     | failBind c => rw [← shift _ rfl, ← ih]; simp [relayablesK]
     | syncTimeout => rw [← shift _ rfl, ← ih]; simp [relayablesK]
     | stamp idx weak ld ccb cct => rw [← shift _ rfl, ← ih]; simp [relayablesK]
